@@ -128,6 +128,7 @@ func DecodeAVCDecConfRec(data []byte) (DecConfRec, error) {
 		AVCLevelIndication:   AVCLevelIndication,
 		SPSnalus:             spsNALUs,
 		PPSnalus:             ppsNALUs,
+		ChromaFormat:         1, // 4:2:0 unless signaled otherwise in the trailing bytes
 	}
 
 	// The rest of this structure may vary
